@@ -17,9 +17,20 @@ def scenario(ctx, i, jfa=True):
     sc = fagen.fa_scenario(r, ctx.tier, jfa=jfa, sessions=1)
     K = int(r.integers(2, 5))
     sc["classes"] = [[fagen.rand_stat(r, sc["C"], sc["D"], sc["m"], sc["v"]) for _ in range(int(r.integers(1, 5)))] for _ in range(K)]
+    counts = ["fractional", "integer", "shared"][i % 3]
+    sc["counts"] = counts
+    shared = None
     for cls in sc["classes"]:
         for s in cls:
+            mean = s["f"] / np.maximum(s["n"], 1e-300)[:, None]
+            if counts == "integer":  # hard-assignment counts of short utterances: many sessions share a count vector
+                s["n"] = r.multinomial(int(r.integers(2, 6)), np.ones(sc["C"]) / sc["C"]).astype(float) + 1.0
+            elif counts == "shared":  # equal-length sessions with identical zeroth-order statistics
+                if shared is None or r.random() < 0.3:
+                    shared = np.maximum(s["n"], 0.05)
+                s["n"] = shared.copy()
             s["n"] = np.maximum(s["n"], 0.05)  # every component gets some mass over the training set
+            s["f"] = np.where(np.isfinite(mean), mean, 0.0) * s["n"][:, None]
     sc["iters"] = int(r.integers(1, 4))
     return sc
 
@@ -199,6 +210,7 @@ def search(ctx):
     for i in range(ctx.budget(12, 120)):
         sc = scenario(ctx, i, jfa=True)
         ctx.count("search:phases")
+        ctx.count("search:counts:" + sc["counts"])
         ctx.case(["s", core.tolist(sc["U"]), core.tolist([[s["f"] for s in c] for c in sc["classes"]])], nontrivial=True)
         f = oracle(sc, 3 if ctx.tier == "quick" else 6)
         if f and f["sig"] not in seen:
